@@ -101,19 +101,37 @@ def hdef : P HDef := do
 
 def parseBits (s : String) : Option (List Bool) := s.toList.mapM bit
 
+/-- `~` = absent, otherwise hex (`-` = empty) -/
+def optHex (s : String) : Option (Option Bytes) :=
+  if s == "~" then some none else (ofHex s).map some
+
+def parseAttr (s : String) : Option (Bytes × Bytes) :=
+  match s.splitOn ":" with
+  | [n, v] =>
+    match ofHex n, (if v == "" then some [] else ofHex v) with
+    | some n, some v => some (n, v)
+    | _, _ => none
+  | _ => none
+
 def parseDesc (s : String) : Option MiniU :=
   match s.splitOn "/" with
-  | ["c"] => some { kind := .comment }
+  | ["c", t] => (ofHex t).map fun b => { kind := .comment, text := b }
   | ["z"] => some { kind := .docEnd }
   | ["t", l] => (bit (l.toList.headD 'x')).map fun b => { kind := .text, flags := [b] }
-  | ["d", fl] => (parseBits fl).map fun b => { kind := .doctype, flags := b }
-  | ["g", id] => id.toNat?.map fun n => { kind := .endTag, elemId := n }
-  | ["e", id, chc, sc, attrs] =>
+  | ["d", n, p, sy] =>
+    match optHex n, optHex p, optHex sy with
+    | some n, some p, some sy => some { kind := .doctype, ids := [n, p, sy] }
+    | _, _, _ => none
+  | ["g", id, nm] =>
+    match id.toNat?, ofHex nm with
+    | some n, some nm => some { kind := .endTag, elemId := n, name := nm }
+    | _, _ => none
+  | ["e", id, chc, sc, attrs, nm] =>
     match id.toNat?, bit (chc.toList.headD 'x'), bit (sc.toList.headD 'x'),
-      (if attrs == "" then some [] else (attrs.splitOn ",").mapM ofHex) with
-    | some n, some c, some s, some a =>
-      some { kind := .element, elemId := n, canHaveContent := c, selfClosing := s, attrs := a }
-    | _, _, _, _ => none
+      (if attrs == "" then some [] else (attrs.splitOn ",").mapM parseAttr), ofHex nm with
+    | some n, some c, some s, some a, some nm =>
+      some { kind := .element, elemId := n, canHaveContent := c, selfClosing := s, attrs := a, name := nm }
+    | _, _, _, _, _ => none
   | _ => none
 
 def parseUnitEv (s : String) : Option UnitEv :=
@@ -189,7 +207,8 @@ def parseCase : P (List HDef × List (Call MiniChunk)) := do
 def showRes : CRes → String
   | .code n => toString n
   | .ptr null => if null then "p0" else "p1"
-  | .strv null => if null then "s0" else "s1"
+  | .strv none => "s0"                                   -- data == NULL
+  | .strv (some v) => if v.isEmpty then "se" else "s1"   -- non-NULL: empty / non-empty
   | .bool b => if b then "b1" else "b0"
   | .raw => "r"
   | .void => "v"
